@@ -595,6 +595,7 @@ PROPS["C04"]["jobs"] += [
 # memory safety of close / destroy / move over the registry histories: after every few steps probes connect and send to every
 # endpoint that was ever bound, so an entry left pointing at a destroyed or moved-from object is dereferenced under ASan
 PROPS["C12"]["jobs"].append({"name": "sanitizers-over-registry-histories", "engine": "registry", "prop": "C11", "mode": "random", "args": {"n": T(12000, 200000)}})
+PROPS["C12"]["jobs"].append({"name": "sanitizers-over-capture-programs", "engine": "pcap", "prop": "C19", "args": {"n": T(600, 20000)}})
 PROPS["C12"]["jobs"].append({"name": "sanitizers-over-moved-sockets", "engine": "tcp", "prop": "C05", "mode": "random", "args": {"n": T(400, 10000)}})
 PROPS["C11"]["jobs"].append({"name": "binding-epochs-over-udp-traffic", "engine": "udp", "prop": "C08", "args": {"n": T(1200, 40000)}})
 PROPS["C13"]["jobs"].append({"name": "mtu-through-nat", "engine": "tcp", "prop": "C20", "args": {"n": T(600, 20000)}})
@@ -611,4 +612,6 @@ PROPS["C16"]["require"]["quick"]["responses_verified_range-out-of-bounds"] = 300
 PROPS["C16"]["jobs"].append({"name": "rangeprobe", "engine": "httpserver", "mode": "rangeprobe", "args": {"n": T(300, 6000)}})
 PROPS["C19"]["require"]["quick"]["tcp_sockets_previously_opened_as_v6"] = 300
 PROPS["C19"]["require"]["quick"]["tcp_sockets_moved_in_mid_stream"] = 500
+PROPS["C19"]["require"]["quick"]["connections_given_up_in_mid_transfer"] = 100
+PROPS["C19"]["require"]["quick"]["programs_with_capture_enabled_in_mid_run"] = 100
 PROPS["C20"]["require"]["quick"]["unrelated_socket_options_set"] = 1000
